@@ -68,11 +68,11 @@ theorem unescape_escape' (s : Str) : unescape (escape s) = s := by
   | cons c r ih =>
     by_cases h : special c = true
     · simp only [special, Bool.or_eq_true, beq_iff_eq] at h
-      rcases h with (((rfl | rfl) | rfl) | rfl) | rfl <;> simp [escape, escChar, unescape, ih]
+      rcases h with ((((rfl | rfl) | rfl) | rfl) | rfl) | rfl <;> simp [escape, escChar, unescape, ih]
     · have hs : special c = false := by simpa using h
       simp only [escape, escChar_of_not_special c hs, List.singleton_append]
       simp only [special, Bool.or_eq_false_iff, beq_eq_false_iff_ne, ne_eq] at hs
-      have hc : c ≠ '&' := hs.1.1.1.1
+      have hc : c ≠ '&' := hs.1.1.1.1.1
       rw [unescape.eq_def]
       split <;> simp_all
 
@@ -249,65 +249,85 @@ open Go Html
 
 /-! ### escaping commutes with trimming (the evaluated v-text content passes through `evalAttributes`, which trims attribute values) -/
 
-theorem isSpace_not_special {c : Char} (h : isSpace c = true) : special c = false := by
-  simp only [isSpace, Bool.or_eq_true, beq_iff_eq] at h
-  rcases h with ((((((rfl | rfl) | rfl) | rfl) | rfl) | rfl) | rfl) | rfl <;> decide
+/-- the white space `escape` leaves alone: every `isSpace` character except the carriage return, which is written as `&#13;` -/
+def isPlainSpace (c : Char) : Bool := isSpace c && c != '\r'
+
+theorem isPlainSpace_not_special {c : Char} (h : isPlainSpace c = true) : special c = false := by
+  simp only [isPlainSpace, isSpace, Bool.and_eq_true, Bool.or_eq_true, beq_iff_eq, bne_iff_ne, ne_eq] at h
+  obtain ⟨h, hcr⟩ := h
+  rcases h with ((((((rfl | rfl) | rfl) | rfl) | rfl) | rfl) | rfl) | rfl <;> first | decide | exact absurd rfl hcr
+
+theorem isPlainSpace_isSpace {c : Char} (h : isPlainSpace c = true) : isSpace c = true := by
+  simp only [isPlainSpace, Bool.and_eq_true] at h; exact h.1
 
 theorem escape_append (a b : Str) : escape (a ++ b) = escape a ++ escape b := by
   induction a with
   | nil => rfl
   | cons c r ih => simp [escape, ih]
 
-theorem escChar_head_not_space (c : Char) (h : isSpace c = false) : ∃ d r, escChar c = d :: r ∧ isSpace d = false := by
+theorem escChar_head_not_space (c : Char) (h : isPlainSpace c = false) : ∃ d r, escChar c = d :: r ∧ isSpace d = false := by
   by_cases hs : special c = true
   · simp only [special, Bool.or_eq_true, beq_iff_eq] at hs
-    rcases hs with (((rfl | rfl) | rfl) | rfl) | rfl <;> exact ⟨'&', _, rfl, by decide⟩
+    rcases hs with ((((rfl | rfl) | rfl) | rfl) | rfl) | rfl <;> exact ⟨'&', _, rfl, by decide⟩
   · have hs' : special c = false := by simpa using hs
-    exact ⟨c, [], escChar_of_not_special c hs', h⟩
+    refine ⟨c, [], escChar_of_not_special c hs', ?_⟩
+    have hcr : c ≠ '\r' := by
+      intro hc; subst hc; exact absurd hs' (by decide)
+    cases hsp : isSpace c with
+    | false => rfl
+    | true => simp [isPlainSpace, hsp, hcr] at h
 
-theorem escChar_last_not_space (c : Char) (h : isSpace c = false) : ∃ d r, (escChar c).reverse = d :: r ∧ isSpace d = false := by
+theorem escChar_last_not_space (c : Char) (h : isPlainSpace c = false) : ∃ d r, (escChar c).reverse = d :: r ∧ isSpace d = false := by
   by_cases hs : special c = true
   · simp only [special, Bool.or_eq_true, beq_iff_eq] at hs
-    rcases hs with (((rfl | rfl) | rfl) | rfl) | rfl <;> exact ⟨';', _, rfl, by decide⟩
+    rcases hs with ((((rfl | rfl) | rfl) | rfl) | rfl) | rfl <;> exact ⟨';', _, rfl, by decide⟩
   · have hs' : special c = false := by simpa using hs
-    exact ⟨c, [], by rw [escChar_of_not_special c hs']; rfl, h⟩
+    refine ⟨c, [], by rw [escChar_of_not_special c hs']; rfl, ?_⟩
+    have hcr : c ≠ '\r' := by
+      intro hc; subst hc; exact absurd hs' (by decide)
+    cases hsp : isSpace c with
+    | false => rfl
+    | true => simp [isPlainSpace, hsp, hcr] at h
 
-theorem trimLeft_escape (x : Str) : trimLeft (escape x) = escape (trimLeft x) := by
+theorem trimLeft_escape (x : Str) : trimLeft (escape x) = escape (x.dropWhile isPlainSpace) := by
   induction x with
   | nil => rfl
   | cons c r ih =>
-    by_cases h : isSpace c = true
-    · have : escChar c = [c] := escChar_of_not_special c (isSpace_not_special h)
-      simp only [escape, this, List.singleton_append, trimLeft, List.dropWhile_cons, h, ↓reduceIte]
+    by_cases h : isPlainSpace c = true
+    · have : escChar c = [c] := escChar_of_not_special c (isPlainSpace_not_special h)
+      simp only [escape, this, List.singleton_append, trimLeft, List.dropWhile_cons, h, isPlainSpace_isSpace h, ↓reduceIte]
       exact ih
-    · have h' : isSpace c = false := by simpa using h
+    · have h' : isPlainSpace c = false := by simpa using h
       obtain ⟨d, r', hd, hds⟩ := escChar_head_not_space c h'
       simp only [escape, trimLeft, List.dropWhile_cons, h', Bool.false_eq_true, ↓reduceIte, hd, List.cons_append, hds]
 
 theorem dropWhile_rev_escape (y : Str) :
-    (escape y.reverse).reverse.dropWhile isSpace = (escape ((y.dropWhile isSpace).reverse)).reverse := by
+    (escape y.reverse).reverse.dropWhile isSpace = (escape ((y.dropWhile isPlainSpace).reverse)).reverse := by
   induction y with
   | nil => rfl
   | cons c r ih =>
     have e1 : escape ((c :: r).reverse) = escape r.reverse ++ escChar c := by
       simp [List.reverse_cons, escape_append, escape]
-    by_cases h : isSpace c = true
-    · have : escChar c = [c] := escChar_of_not_special c (isSpace_not_special h)
+    by_cases h : isPlainSpace c = true
+    · have : escChar c = [c] := escChar_of_not_special c (isPlainSpace_not_special h)
       rw [e1, this]
-      simp only [List.reverse_append, List.reverse_singleton, List.singleton_append, List.dropWhile_cons, h, ↓reduceIte]
+      simp only [List.reverse_append, List.reverse_singleton, List.singleton_append, List.dropWhile_cons, h, isPlainSpace_isSpace h, ↓reduceIte]
       exact ih
-    · have h' : isSpace c = false := by simpa using h
+    · have h' : isPlainSpace c = false := by simpa using h
       obtain ⟨d, r', hd, hds⟩ := escChar_last_not_space c h'
       rw [e1]
       simp only [List.reverse_append, hd, List.cons_append, List.dropWhile_cons, hds, Bool.false_eq_true, ↓reduceIte, h']
       rw [← List.cons_append, ← hd, ← List.reverse_append, ← e1]
 
-theorem trimRight_escape (x : Str) : trimRight (escape x) = escape (trimRight x) := by
+theorem trimRight_escape (x : Str) : trimRight (escape x) = escape ((x.reverse.dropWhile isPlainSpace).reverse) := by
   have h := dropWhile_rev_escape x.reverse
   simp only [List.reverse_reverse] at h
   simp only [trimRight, h, List.reverse_reverse]
 
-theorem trimSpace_escape (x : Str) : trimSpace (escape x) = escape (trimSpace x) := by
+/-- trimming an escaped text gives an escaped text again: the text with its plain white space trimmed (a carriage return at either end
+    was written as `&#13;` and stays) -/
+theorem trimSpace_escape (x : Str) : ∃ y, trimSpace (escape x) = escape y := by
+  refine ⟨((x.dropWhile isPlainSpace).reverse.dropWhile isPlainSpace).reverse, ?_⟩
   simp only [trimSpace, trimLeft_escape, trimRight_escape]
 
 end Vuego
